@@ -2575,6 +2575,10 @@ impl VectorEngine {
         if top_k == 0 {
             return Err(VectorError::InvalidTopK);
         }
+        // No score is defined against vectors of another dimension (the exhaustive search skips them)
+        if !Self::index_dimension_matches(index, query) {
+            return Ok(Vec::new());
+        }
 
         let results = index.search(query, top_k);
 
@@ -2619,6 +2623,10 @@ impl VectorEngine {
         }
         if top_k == 0 {
             return Err(VectorError::InvalidTopK);
+        }
+        // No score is defined against vectors of another dimension (the exhaustive search skips them)
+        if !Self::index_dimension_matches(index, query) {
+            return Ok(Vec::new());
         }
 
         // Fetch 2x candidates from HNSW
